@@ -307,15 +307,16 @@ theorem C13_pom_class_witnesses :
      (write pom us).isSome = true ∧ reqsAfter pom us ≠ some (substitute (requirements pom) us) ∧ feature pom us = some "C13/pom-shared-property") := by
   decide
 
-/-- known finding C13/pom-property-other-profile, on the model: a dependency in profile p1 with version
-`${w}`, `w` defined only in profile p2.  The by-name test of fix f5d17448 passes, the patch is recorded
-under property origin "" where nothing holds `w`; `Write` reports success and the written pom is the input. -/
+/-- former finding C13/pom-property-other-profile, repaired by 95fbdd2e, on the model: a dependency in profile p1 with version
+`${w}`, `w` defined only in profile p2.  No definition of `w` applies to the dependency, so the dependency itself is
+rewritten (`${w}` → the new version) and the pom re-reads as substituted.  (Before: the by-name test passed, the patch was
+recorded under property origin "" where nothing holds `w`, `Write` reported success and wrote the input back.) -/
 theorem C13_pom_other_profile_witness :
     let pom : Pom := ⟨[⟨[], ['x'], ['m'], [], [], "1.0".toList, false⟩, ⟨"profile@p1".toList, ['x'], ['q'], [], [], "${w}".toList, false⟩],
                       [⟨"profile@p2".toList, ['w'], "1.0".toList⟩], "1.0".toList, []⟩
     let us : List Upd := [⟨"x:q".toList, [], [], [], "${w}".toList, "2.0".toList⟩]
-    write pom us = some pom ∧ reqsAfter pom us ≠ some (substitute (requirements pom) us) ∧
-    feature pom us = some "C13/pom-property-other-profile" := by
+    write pom us = some { pom with deps := [⟨[], ['x'], ['m'], [], [], "1.0".toList, false⟩, ⟨"profile@p1".toList, ['x'], ['q'], [], [], "2.0".toList, false⟩] } ∧
+    reqsAfter pom us = some (substitute (requirements pom) us) ∧ otherProfileProp pom us = true ∧ feature pom us = none := by
   decide
 
 /-- `VersionFrom` plays no part in the pom.xml writer — neither in the model nor in the Go code it mirrors (`buildPatches`,
